@@ -176,6 +176,8 @@ func c03Sites(g *hx.Gen) []c03Site {
 		// directory scopes in normal form, no archives, no proxy: the class of C03_no_disclosure_dirscoped
 		{"", "/|", "", []string{"basicauth bob pw /secret/,/docs/ /secret/deep/", "internal /int/", "tryfiles {path} /pub/a.txt", "ext .txt"}, u},
 		{"/pre", "", "", []string{"basicauth bob pw /secret/", "basicauth alice pw2 /secret2/,/secret/deep/", "internal /int/sub/", "rewrite base /r /secret/s.txt /int/sub/j.txt"}, u},
+		// … with archives and proxies whose scopes do not lie strictly above a protection scope (ScopeClear)
+		{"", "/pub/|tar,zip;/secret/deep/|zip;/area/locked|tar", "", []string{"basicauth bob pw /secret/,/area/locked/", "internal /int/", "proxy /api 9001", "proxy /secret/api 9002"}, u},
 		{"", "", "", []string{"tryfiles {path} /pub/a.txt", "basicauth bob pw /secret"}, u},
 		{"", "", "", []string{"tryfiles {path} /secret/s.txt", "basicauth bob pw /secret"}, u},
 		{"/pre", "", "", []string{"tryfiles {path} /pub/a.txt", "basicauth bob pw /secret"}, u},
@@ -296,7 +298,7 @@ func c03Gen(g *hx.Gen) {
 				emit("GET", s.prefix+"/"+a+"/"+b, "", "")
 			}
 		}
-		n := 1200
+		n := 900
 		if g.Thorough() {
 			n = 3000
 		}
